@@ -16,13 +16,14 @@ from __future__ import annotations
 from sexp import Sym
 
 from props import _dfrows_util as U
+from props import _dfrows_c43x as X
 
 U.warm()
 
 PROP = "C43"
 READY = True
 DRIVER = "dm_dfrows"
-LEAN_MODULES = ["DaskModel.Props.C43"]
+LEAN_MODULES = ["DaskModel.Props.C43", "DaskModel.Props.C43x"]
 CASE_TIMEOUT_S = 60
 LEVEL_TEXT = (
     "Partial. Proved in Lean: (1) a normal form for relational expressions over one source (FromPandas/FromMap root, Projection "
@@ -36,9 +37,21 @@ LEVEL_TEXT = (
     "Validated, not proved: that the real optimizer only performs accepted steps (every recorded step of the real "
     "simplify/lower/simplify trace inside the fragment is checked on each run), that the real rewrite_filters IS the modelled "
     "function (diffed on OR-of-AND predicates with shared conjuncts / absorbing clauses in every position), projection "
-    "pushdown through merge/concat/groupby, Len/Lengths shortcuts, blockwise fusion and lowering of other classes (by value "
+    "pushdown through groupby, the Lengths shortcut, head/tail pushdowns, blockwise fusion and lowering of other classes (by value "
     "against pandas and the unoptimised graph), convergence of the whole optimizer (observed: no RuntimeError, "
-    "re-optimising is a fixed point).")
+    "re-optimising is a fixed point). "
+    "Extension (Props/C43x): the expression language over SEVERAL sources with Merge (inner/left on key columns, suffixes "
+    "_x/_y), Concat (axis 0, outer), Index and Len; one proved soundness theorem per rewrite schema - Merge._simplify_up "
+    "projection pushdown keeping the join keys and the origin of every selected column (rMergeL_sound, rMergeR_sound, "
+    "rMergeDrop_sound), Concat._simplify_up (rConcatL_sound, rConcatR_sound, rConcatDrop_sound), Len._simplify_down / "
+    "FromPandas._simplify_up(Len) / Index through Filter (lenCands_sound) - and the extended checker check2 (schemas at any "
+    "position + congruence + the old checker on single-source sub-steps) is sound: an accepted step refines the value "
+    "(check2_old_sound, checkTrace2_old_sound; value equality for the pushdowns, refinement for Len rules, which may drop an "
+    "ill-formed wrapper). Validated per run (section xtrace): real simplify_once steps of merge/concat/len programs are sent "
+    "to this checker (about 110 of 125 comparable steps accepted per quick run; the rest are filter pushdown INTO a merge, "
+    "projection through assign-after-merge and projection-of-projection above a merge: not modelled as schemas, compared by "
+    "value); the column computations of the real rules equal projectSides / concatCols / lenDown and satisfy the proved "
+    "side conditions (section xfn); that projectSides ALWAYS satisfies them is validated, not proved.")
 LEVEL_NOTE = ("Trusted: Lean kernel; the translator from dask expression objects to the model AST (harness); pandas as value "
               "oracle; integer-cell encoding; pyarrow stub.")
 TECHNIQUE = "Lean 4 proved-sound equivalence checker (normal forms) + validation of real optimizer traces + 4-way differential (optimised / unfused / unsimplified / pandas)"
@@ -541,6 +554,7 @@ def case_orrewrite_fn(ctx, inp):
 
 
 CASES = {"trace": case_trace, "api": case_api, "orrewrite": case_orrewrite, "orrewrite_fn": case_orrewrite_fn}
+CASES.update(X.CASES)       # extension round: xtrace, xfn (merge / concat / len in the proved checker)
 
 
 # ------------------------------------------------------------------------------------------------
@@ -687,7 +701,8 @@ def gen_orrewrite(rng):
 
 def generate(ctx):
     rng = ctx.rng
-    for _ in range(ctx.n(70, 1500)):
+    yield from X.generate(ctx)
+    for _ in range(ctx.n(60, 1500)):
         yield "orrewrite", gen_orrewrite(rng)
     # exhaustive small space: every list of 2 (thorough: also 3) clauses over the non-empty conjunct lists of <= 2 of 3 atoms
     import itertools
@@ -697,7 +712,7 @@ def generate(ctx):
             if rng.random() < (0.5 if ctx.thorough() else 0.55):
                 continue
             yield "orrewrite_fn", {"clauses": [list(c) for c in cl], "right": rng.random() < 0.5}
-    for _ in range(ctx.n(140, 2500)):
+    for _ in range(ctx.n(120, 2500)):
         inp, names = gen_frame(rng)
         inp["prog"] = gen_assign_chain(rng, names) if rng.random() < 0.3 else gen_prog(rng, names, rng.randint(1, 5))
         inp["parts"] = rng.random() < 0.7
@@ -706,7 +721,7 @@ def generate(ctx):
               "filter-then-reduction-filter", "filter-then-reduction-filter", "astype-filter", "or-filter-binop",
               "filter-then-nonlocal-filter", "filter-then-nonlocal-filter", "and-with-reduction-then-projection",
               "filter-head-head", "filter-head-head"]
-    for _ in range(ctx.n(110, 1000)):
+    for _ in range(ctx.n(95, 1000)):
         inp, names = gen_frame(rng)
         inp["prog"] = [st for st in gen_prog(rng, names, rng.randint(0, 3)) if st[0] != "sel"]
         inp["names"] = names
